@@ -5,7 +5,7 @@ Line-protocol driver for the C03 models (metric block merge + family compaction)
   wr <blk>                                   -> ok <canonical blk read back from the model block writer's output>
   reset                                       -> ok
   flush <metric>=<blk> <metric>=<blk> ...     -> ok L0:<files> L1:<files>
-  compact <threshold> <maxFileSize> <k:len,k:len,...|->   -> <skipped|moved|merged|fail> L0:<files> L1:<files>
+  compact <threshold> <maxFileSize> <k:len,k:len,...|-> [failAt]  -> <skipped|moved|merged|fail> L0:<files> L1:<files>
   view <metric>                               -> ok S:<ids> F:<id:ty,...> V:<s/f/t=v ...>
 
   <blk>   = <fields>#<start>_<end>#<series>|<series>...      fields = id:ty,id:ty
@@ -162,14 +162,19 @@ def step (st : Family Int) (ws : List String) : Family Int × String :=
     match rest.mapM parseEntry with
     | some es => let s := flush st es; (s, "ok " ++ showLevels s)
     | none => (st, "bad-op")
-  | ["compact", th, mx, sz] =>
-    match th.toNat?, mx.toNat?, parseSizes sz with
-    | some th, some mx, some sizes =>
+  | "compact" :: th :: mx :: sz :: rest =>
+    -- optional 5th word: index of the output file whose creation fails (injected fault)
+    let failAt? : Option (Option Nat) := match rest with
+      | [] => some none
+      | [k] => (k.toNat?).map some
+      | _ => none
+    match th.toNat?, mx.toNat?, parseSizes sz, failAt? with
+    | some th, some mx, some sizes, some failAt =>
       -- a key without announced size makes the split undefined: answered by `bad-op` below
       let p : Params Int := { threshold := th, maxFileSize := mx,
                               size := fun k _ => match lookup sizes k with | some n => n | none => 0,
                               shuffle := id, rebind := Generated.C03.streamWriterRebinds,
-                              tolerant := Generated.C03.scannerToleratesEmptyBucket }
+                              tolerant := Generated.C03.scannerToleratesEmptyBucket, failAt := failAt }
       let (s, o) := compact aggInt p st
       let outKeys := (mergedEntries aggInt p (st.l0 ++ pickUp st.l0 st.l1)).map (·.1)
       let sized := outKeys.all (fun k => (lookup sizes k).isSome)
@@ -178,7 +183,7 @@ def step (st : Family Int) (ws : List String) : Family Int × String :=
       | .moved => (s, s!"moved {showLevels s}")
       | .merged => if sized then (s, s!"merged {showLevels s}") else (st, "bad-op")
       | .crashed => if sized then (s, s!"fail {showLevels s}") else (st, "bad-op")
-    | _, _, _ => (st, "bad-op")
+    | _, _, _, _ => (st, "bad-op")
   | ["view", m] =>
     match m.toNat? with
     | some m => (st, showView st m)
